@@ -31,13 +31,13 @@ func init() {
 }
 
 type collRoles struct {
-	n        *types.Named
-	depthF   *types.Var
-	maxF     *types.Var
-	ms       map[string]*ast.FuncDecl
-	rankT    *types.Named
-	L, E, G  int64
-	info     *types.Info
+	n       *types.Named
+	depthF  *types.Var
+	maxF    *types.Var
+	ms      map[string]*ast.FuncDecl
+	rankT   *types.Named
+	L, E, G int64
+	info    *types.Info
 }
 
 func bindCollator(c *Ctx, r *Rec) *collRoles {
